@@ -6,9 +6,10 @@ Slots and block hashes are `Nat` (hash 0 = `GENESIS_BLOCK_HASH`; the harness int
 small ids).  A block id is `(slot, hash)`.  The two `BTreeMap`s are total functions into `Option`
 (`none` = no entry); `split_off`/`retain` of `prune` are the pointwise restrictions.
 
-Every `assert!`, `assert_eq!(.., "consensus safety violation")`, `panic!` *and* the three
-`debug_assert!(slot >= first_unpruned_slot)` of the mutators (the harness and the repository's test-suite
-build with debug assertions) are the outcome `Res.panic`.
+Every `assert!`, `assert_eq!(.., "consensus safety violation")` and `panic!` is the outcome `Res.panic`.
+The three `debug_assert!(slot >= first_unpruned_slot)` of the mutators are compiled out: the harness builds
+the crate like its release profile (debug assertions off, overflow checks on), so the `if` that follows
+each of them returns the default event for a slot below the watermark.
 
 The recursion of `handle_implicitly_finalized` goes through strictly decreasing slots
 (`assert!(source_slot > implicitly_finalized.0)`), so it is structural on a fuel that starts at the
@@ -159,7 +160,7 @@ def addParent (t : Tracker) (blk par : Nat × Nat) : Res :=
 
 /-- `mark_fast_finalized`. -/
 def markFastFinalized (t : Tracker) (blk : Nat × Nat) : Res :=
-  if blk.1 < t.first then .panic   -- debug_assert!
+  if blk.1 < t.first then .ok t {}   -- debug_assert! is compiled out (release semantics); the `if` below it returns the default event
   else
     let t1 : Tracker := { t with status := setSt t.status blk.1 (.finalized blk.2) }
     match t.status blk.1 with
@@ -172,7 +173,7 @@ def markFastFinalized (t : Tracker) (blk : Nat × Nat) : Res :=
 
 /-- `mark_notarized` (after the D14 repair: decided statuses are restored). -/
 def markNotarized (t : Tracker) (blk : Nat × Nat) : Res :=
-  if blk.1 < t.first then .panic   -- debug_assert!
+  if blk.1 < t.first then .ok t {}   -- debug_assert! is compiled out (release semantics); the `if` below it returns the default event
   else
     let t1 : Tracker := { t with status := setSt t.status blk.1 (.notarized blk.2) }
     match t.status blk.1 with
@@ -186,7 +187,7 @@ def markNotarized (t : Tracker) (blk : Nat × Nat) : Res :=
 
 /-- `mark_finalized` (after the D14 repair). -/
 def markFinalized (t : Tracker) (slot : Nat) : Res :=
-  if slot < t.first then .panic   -- debug_assert!
+  if slot < t.first then .ok t {}   -- debug_assert! is compiled out (release semantics)
   else
     let t1 : Tracker := { t with status := setSt t.status slot .finalPending }
     match t.status slot with
@@ -200,7 +201,7 @@ def markFinalized (t : Tracker) (slot : Nat) : Res :=
 
 /-- `mark_notarized` of the pinned snapshot (before the D14 repair): the `insert` of `Notarized` stays. -/
 def markNotarizedOld (t : Tracker) (blk : Nat × Nat) : Res :=
-  if blk.1 < t.first then .panic
+  if blk.1 < t.first then .ok t {}
   else
     let t1 : Tracker := { t with status := setSt t.status blk.1 (.notarized blk.2) }
     match t.status blk.1 with
@@ -214,7 +215,7 @@ def markNotarizedOld (t : Tracker) (blk : Nat × Nat) : Res :=
 
 /-- `mark_finalized` of the pinned snapshot (before the D14 repair). -/
 def markFinalizedOld (t : Tracker) (slot : Nat) : Res :=
-  if slot < t.first then .panic
+  if slot < t.first then .ok t {}
   else
     let t1 : Tracker := { t with status := setSt t.status slot .finalPending }
     match t.status slot with
